@@ -11,6 +11,8 @@ From Coq Require Import List Bool Arith Ascii String NArith Permutation Sorted.
 From UV.Base Require Import Order SortUniq Res.
 From UV.Py Require Import PyStr.
 From UV.Schemes Require Import Common Generic LegacyOpenssl Gentoo GentooProofs Debian DebianProofs Semver SemverProofs Gem GemProofs Rpm RpmProofs Arch ArchProofs Openssl.
+From UV.Schemes Require Import Pypi.
+From UV.Ref Require Pep440.
 Import ListNotations.
 
 (* the laws, for any comparison that is a total preorder: < is cmp = Lt, > is cmp = Gt *)
@@ -94,6 +96,10 @@ Theorem C01_openssl :
   TPO ossl_cmp /\ forall a b, ossl_ok a = true -> ossl_ok b = true -> ossl_ops a b = ops_of (ossl_cmp a b).
 Proof. split; [exact ossl_tpo|exact ossl_ops_spec]. Qed.
 
+(* pypi: the PEP 440 order (the model of the third-party packaging library) *)
+Theorem C01_pypi : TPO Pep440.pep_cmp /\ forall a b, pypi_ops a b = ops_of (Pep440.pep_cmp a b).
+Proof. split; [exact pypi_tpo|reflexivity]. Qed.
+
 (* Non-vacuity: accepted versions have the shape the theorems need, and the orders are not trivial *)
 Example C01_nonvacuous :
   gok (list_ascii_of_string "1.02_alpha1_p-r3") = true /\
@@ -117,3 +123,4 @@ Print Assumptions C01_gem.
 Print Assumptions C01_rpm.
 Print Assumptions C01_alpm.
 Print Assumptions C01_openssl.
+Print Assumptions C01_pypi.
